@@ -548,14 +548,25 @@ def structural_eq(P, key, adt, only=None):
             xs = (t_[2], t_[3])
         elif t_[0] == "eq":
             xs = (t_[1], t_[2])
-        elif t_[0] == "app" and t_[1].endswith("PartialEq>::eq") and len(t_[2]) == 2:
+        elif t_[0] == "app" and "PartialEq" in t_[1] and t_[1].endswith("::eq") and len(t_[2]) == 2:
             xs = t_[2]
         if xs is None:
             return None
+        # a comparison of two tuples built from the fields is the conjunction of the componentwise comparisons
+        tx, ty = xs[0], xs[1]
+        while tx[0] in ("refv", "obj") and isinstance(tx[1], tuple):
+            tx = tx[1]
+        while ty[0] in ("refv", "obj") and isinstance(ty[1], tuple):
+            ty = ty[1]
+        if tx[0] == "tuple" and ty[0] == "tuple" and len(tx[1]) == len(ty[1]) and tx[1]:
+            parts = [atom(("eq", a_, b_)) for a_, b_ in zip(tx[1], ty[1])]
+            if any(p_ is None for p_ in parts):
+                return None
+            return tuple(f_ for p_ in parts for f_ in p_)
         x, y = strip(xs[0]), strip(xs[1])
         for p_, q_ in ((x, y), (y, x)):
             if p_[0] == "field" and q_[0] == "field" and p_[1] == a0 and q_[1] == a1 and p_[2] == q_[2] and p_[2] in fields:
-                return p_[2]
+                return (p_[2],)
         return None
     try:
         inner = {k_ for k_ in P.fns if k_.endswith("core::cmp::PartialEq>::eq") and k_ != key}
@@ -574,7 +585,7 @@ def structural_eq(P, key, adt, only=None):
                 f = atom(t_)
                 if f is None:
                     return False, f"a path depends on {T.show(t_)[:100]}, which is not a comparison of one field of both operands"
-                if (val[f] != neg) != bool(v):
+                if (all(val[x_] for x_ in f) != neg) != bool(v):
                     ok = False
                     break
             if not ok:
@@ -586,7 +597,7 @@ def structural_eq(P, key, adt, only=None):
                 f = atom(r)
                 if f is None:
                     return False, f"returns {T.show(r)[:100]}"
-                answers.append(val[f])
+                answers.append(all(val[x_] for x_ in f))
         if not answers or any(a != all(asg) for a in answers):
             return False, f"with fields equal = {val} it answers {answers}"
     return True, "evaluated over all field-equality combinations"
